@@ -309,24 +309,19 @@ def l2_obs(tier, rnd):
     obs = []
     for cname, curve, gain, buckets in plans:
         for k in buckets:
-            # inputs whose bucket can be k: value = min(v*gain/256, 32768), bucket = int(value/128)
-            if gain == 0:
-                if k != 0:
-                    continue
-                lo, hi = 0, 32768
-            else:
-                lo = max(0, (128 * k * 256) // gain - 2)
-                hi = min(32768, (128 * (k + 1) * 256) // gain + 2)
-                if lo > 32768:
-                    continue
+            # the input ranges over the WHOLE domain 0..32768; the hint "bucket == k" (an assumption on the function's own
+            # bucket term) is what restricts the query to the inputs that use segment k, whatever formula the code uses for it
+            lo, hi = 0, 32768
+            if gain == 0 and k != 0:
+                continue
             params = [gain, 32768, 0, 32768, 0, 32768, None]
             a, b_ = curve[k], curve[k + 1] if k < 256 else curve[k]
             # with gain > 256 several inputs beyond the point where value reaches 32768 share bucket 256
-            payload = {"kind_of_job": "convert_value", "params": params, "curve": curve, "bucket": k, "in_lo": lo, "in_hi": (32768 if k == 256 else hi), "out_lo": min(a, b_), "out_hi": max(a, b_), "direction": 1,
+            payload = {"kind_of_job": "convert_value", "params": params, "curve": curve, "bucket": k, "in_lo": lo, "in_hi": hi, "out_lo": min(a, b_), "out_hi": max(a, b_), "direction": 1,
                        "timeout": 120 if tier == "quick" else 400, "need_both": False, "functions": ["rv/modules/multictl.py:convert_value"],
                        "replay_src": CV_REPLAY.format(params=params, curve=curve, direction=1, lo=min(a, b_), hi=max(a, b_))}
             obs.append(Ob(f"L2.{cname}.g{gain}.b{k}", "", f"gain + curve stage, curve '{cname}', gain {gain}, bucket {k} (points {a} -> {b_}): the interpolated value lies between the two curve points and is monotone inside the bucket, for every input whose bucket is {k}",
-                          group="L2", shape=f"convert_value({gain}, 32768, 0, 32768, 0, 32768, None, v, curve) under bucket(v) == {k}", symbolic=f"v over {lo}..{hi} constrained to bucket {k}", timeout=payload["timeout"], engine="F", payload=payload))
+                          group="L2", shape=f"convert_value({gain}, 32768, 0, 32768, 0, 32768, None, v, curve) under bucket(v) == {k}", symbolic=f"v over 0..32768 under the assumption that the function's bucket term equals {k}", timeout=payload["timeout"], engine="F", payload=payload))
     return obs
 
 
